@@ -15,7 +15,7 @@ def L(name, crate, file, props, tier="quick", variant=None, timeout=300, mem_gb=
 def lemmas_for(prop, tier):
     out = []
     for l in LEMMAS:
-        if prop not in l["props"]:
+        if prop != "ALL" and prop not in l["props"]:
             continue
         if tier == "quick" and l["tier"] != "quick":
             continue
@@ -125,7 +125,7 @@ for nm in ("rs_send_n0", "rs_send_n1"):
       claim="send refuses iff mem+len > max (nothing changes) else assigns the next id exactly once, mem += len, stores Small iff len <= 1200 else Sliced with ceil(len/1200) slices",
       bound="%s queued messages; len <= 4000, ids < 2^62, max <= 2^40 symbolic" % nm[-1], **RR)
 for nm, tier in (("rs_gps_small_n1", "quick"), ("rs_gps_small_n2", "quick")):
-    L(nm, props=["C14", "C15", "C08"], variant=V2, tier=tier, timeout=600,
+    L(nm, props=["C14", "C15", "C08", "C01", "C02"], variant=V2, tier=tier, timeout=600,
       functions="SendChannelReliable::get_packets_to_send (small messages)",
       claim="budget deducted == bytes of the messages emitted, threaded in id order; a message is emitted iff due (never sent or now-last >= resend) and avail >= len; "
             "timer refreshed iff emitted, untouched otherwise; nothing released; sequence advances once per packet; no packet when nothing is due/affordable",
@@ -139,7 +139,7 @@ L("rs_size_small_n3", props=["C13"], variant=V3, tier="quick", timeout=1200, mem
   claim="with three queued small messages every SmallReliable packet of the tick serializes to <= 1300 bytes (message counts read per packet, sizes attributed in id order)",
   bound="3 queued messages, lengths 0..=1200, ids < 2^62 (all varint classes), timers None, budget unlimited", **RR)
 for nm, tier in (("rs_gps_sliced_n2", "quick"), ("rs_gps_sliced_n3", "quick")):
-    L(nm, props=["C14", "C15"], variant=V2, tier=tier, timeout=600,
+    L(nm, props=["C14", "C15", "C01", "C02"], variant=V2, tier=tier, timeout=600,
       functions="SendChannelReliable::get_packets_to_send (sliced message)",
       claim="slice i is emitted iff unacked, due and >= 1200 bytes of budget remain at its turn (round robin from next_slice_to_send); budget deducted == payload bytes; "
             "acked slices never re-emitted; timers refreshed iff emitted; one packet per emitted slice",
@@ -149,11 +149,11 @@ for nm, tier in (("rs_pack_sliced_n2", "thorough"), ("rs_pack_sliced_n3", "thoro
       functions="SendChannelReliable::get_packets_to_send (slicing plan on the wire)",
       claim="a fresh sliced message yields exactly num_slices packets, slice i = bytes [1200 i, min(1200(i+1), len)) with num_slices = ceil(len/1200), each index once, each packet <= 1300 B",
       bound="one sliced message of %s slices, nothing acked, timers None, budget unlimited (concrete); id, length, sequence symbolic" % nm[-1], **RR)
-L("rs_ack_small", props=["C08", "C09", "C15"], variant=V2, functions="SendChannelReliable::process_message_ack",
+L("rs_ack_small", props=["C08", "C09", "C15", "C01", "C02"], variant=V2, functions="SendChannelReliable::process_message_ack",
   claim="ack(id) releases exactly that message and returns its bytes once; unknown/duplicate ack changes nothing (so it is never emitted again: rs_gps_* only visit queued entries)",
   bound="2 queued small messages, ids/lengths symbolic", **RR)
 for nm, tier in (("rs_ack_slice_n2", "quick"), ("rs_ack_slice_n3", "thorough")):
-    L(nm, props=["C08", "C09", "C15"], variant=V2, tier=tier, functions="SendChannelReliable::process_slice_message_ack",
+    L(nm, props=["C08", "C09", "C15", "C01", "C02"], variant=V2, tier=tier, functions="SendChannelReliable::process_slice_message_ack",
       claim="a sliced message is released (bytes returned once) exactly when every slice index has been acknowledged; duplicate/foreign acks change nothing",
       bound="one sliced message of %s slices, ack flags symbolic, slice index < num_slices (Inv_SP)" % nm[-1], **RR)
 L("rs_init", props=["C09", "C14"], variant=V2, functions="SendChannelReliable::new", claim="fresh channel empty; get_packets_to_send on empty returns nothing and leaves budget/sequence", bound="none", **RR)
@@ -204,10 +204,11 @@ L("ack_cap_64", props=["C13", "C16", "C08"], variant=V2, timeout=900, mem_gb=16,
 for nm, tier in (("ack_largest_n1", "quick"), ("ack_largest_n2", "quick"), ("ack_largest_n3", "thorough")):
     L(nm, props=["C08"], variant=V2, tier=tier, timeout=600, functions="RenetClient::acked_largest",
       claim="trimming forgets exactly the sequences <= the largest sequence covered by an acknowledged ack packet", bound="list of %s ranges, all symbolic" % nm[-1], **RC)
-for nm in ("dc_absorb_status", "dc_absorb_send", "dc_absorb_recv", "dc_absorb_packet", "dc_absorb_gps", "dc_absorb_reason", "dc_absorb_update"):
+for nm in ("dc_absorb_set_connected", "dc_absorb_set_connecting", "dc_absorb_disconnect", "dc_absorb_transport", "dc_absorb_send_rel", "dc_absorb_send_unrel",
+           "dc_absorb_recv_rel", "dc_absorb_recv_unrel", "dc_absorb_packet", "dc_absorb_gps", "dc_absorb_reason", "dc_absorb_update"):
     L(nm, props=["C12"], variant=V2, timeout=600, functions="RenetClient::{set_connected, set_connecting, disconnect, disconnect_due_to_transport, send_message, receive_message, process_packet, get_packets_to_send, update, disconnect_with_reason}",
       claim="Disconnected{r} is absorbing: status and first reason unchanged, nothing emitted, accepted or handed out, channel observables unchanged",
-      bound="client with one reliable + one unreliable channel per direction (struct literal), any reason shape, one public call (%s); raw packets <= 8 B" % nm.split("_")[-1],
+      bound="client with one reliable + one unreliable channel per direction, any reason shape, one public call (%s); raw packets <= 8 B" % nm.split("absorb_")[1],
       stubs="ConnectionStats::update (telemetry; divides a symbolic u128)", **RC)
 L("dc_first_reason", props=["C12"], variant=V2, functions="RenetClient::{disconnect, disconnect_due_to_transport, disconnect_with_reason, set_connected, set_connecting}",
   claim="the first disconnect cause is kept whatever follows", bound="all reason shapes", **RC)
@@ -219,33 +220,32 @@ RP = dict(crate="renet", file="packet.rs")
 VV = {"bytes": "vec", "cap": 2, "qcap": 2, "fs": 128}
 for nm in ("rt_renet_small_rel_1", "rt_renet_small_rel_2", "rt_renet_small_rel_empty", "rt_renet_small_unrel_1", "rt_renet_small_unrel_2",
            "rt_renet_slice_rel", "rt_renet_slice_unrel", "rt_renet_ack_1", "rt_renet_ack_2", "rt_renet_ack_3"):
-    L(nm, props=["C16", "C13"] + (["C08"] if "ack" in nm else []), variant=VV, timeout=600,
-      tier="thorough" if nm in ("rt_renet_small_rel_empty", "rt_renet_ack_3") else "quick",
+    L(nm, props=["C16", "C13"] + (["C08"] if "ack" in nm else []), variant=VV, timeout=1800 if nm != "rt_renet_small_unrel_1" else 1000, mem_gb=16,
+      tier="quick" if nm in ("rt_renet_small_unrel_1",) else "thorough",
       functions="Packet::to_bytes, Packet::from_bytes (octets varints)",
       claim="from_bytes(to_bytes(p)) == p, the whole serialization is consumed, and its length equals the wire-format formula" +
             (" (an ack packet denotes exactly its set of sequences)" if "ack" in nm else ""),
       bound="all field magnitudes < 2^62 across the 1/2/4/8-byte varint classes; message/payload lengths and range count fixed per instance (<= 3 bytes, <= 3 ranges)", **RP)
-for nm, tier in (("parse_total_t0", "quick"), ("parse_total_t1", "quick"), ("parse_total_t2", "quick"), ("parse_total_t3", "quick"), ("parse_total_t4", "quick"),
+for nm, tier in (("parse_total_t0", "thorough"), ("parse_total_t1", "quick"), ("parse_total_t2", "thorough"), ("parse_total_t3", "thorough"), ("parse_total_t4", "quick"),
                  ("parse_total_other", "quick"), ("parse_total_t0_12", "thorough"), ("parse_total_t2_12", "thorough"), ("parse_total_t4_12", "thorough")):
-    L(nm, props=["C06"], variant=VV, tier=tier, timeout=1200 if "12" in nm else 600, mem_gb=16,
+    L(nm, props=["C06"], variant=VV, tier=tier, timeout=1800 if "12" in nm else 1000, mem_gb=16,
       functions="Packet::from_bytes",
       claim="the parser returns normally on every byte string and every Ok value satisfies V (slice count 1..=10^6, reliable slice payload 1..=1200, ack ranges non-empty/ascending/separated)",
       bound="all byte strings of length <= %s with the given first byte" % ("12" if "12" in nm else "8"), **RP)
 for nm in ("rt_renet_rev_t0", "rt_renet_rev_t2", "rt_renet_rev_t4"):
-    L(nm, props=["C16"], variant=VV, timeout=900, mem_gb=16, functions="Packet::from_bytes, Packet::to_bytes",
+    L(nm, props=["C16"], variant=VV, tier="thorough", timeout=1800, mem_gb=16, functions="Packet::from_bytes, Packet::to_bytes",
       claim="a byte string that decodes re-encodes to bytes that decode to the same value", bound="all byte strings <= 8 B of packet type %s" % nm[-1], **RP)
 L("ser_short_buffer", props=["C13"], variant=VV, functions="Packet::to_bytes", claim="a too small buffer yields BufferTooShort, never a panic or an over-long write", bound="buffer 0..=24 B", **RP)
 L("pk_witness", props=["C06", "C16", "C13"], variant=VV, expect="fail", functions="-", claim="vacuity witness", **RP)
 
 # renet: server (C11, C12)
 RS = dict(crate="renet", file="server.rs")
-for nm in ("ev_add_n0", "ev_add_n1", "ev_remove_n1", "ev_remove_n2", "ev_disconnect_n1", "ev_disconnect_all_n2", "ev_local_disconnect_n1", "ev_local_new_n1"):
-    L(nm, props=["C12"], variant=V2, timeout=600, tier="thorough" if nm in ("ev_add_n0", "ev_remove_n2") else "quick",
-      functions="RenetServer::{add_connection, remove_connection, disconnect, disconnect_all, new_local_client, disconnect_local_client}",
-      claim="an event is reported exactly when the witness client's membership changes: Connected only when it was absent, Disconnected only when it was present, with the "
-            "connection's stored first reason (Transport if healthy); other clients' status untouched",
-      bound="%s existing connections with symbolic ids and symbolic healthy/disconnected(reason) status; one call; empty event queue beforehand" % nm[-1], **RS)
-for nm in ("srv_frame_send_rel", "srv_frame_send_unrel", "srv_frame_recv", "srv_frame_disconnect", "srv_frame_packet", "srv_frame_gps"):
+for nm in ("ev_add_n0", "ev_add_same_n1", "ev_disconnect_n1", "ev_disconnect_all_n2"):
+    L(nm, props=["C12"], variant=V2, timeout=600, functions="RenetServer::{add_connection, disconnect, disconnect_all}",
+      claim="an event is reported exactly when the witness client's membership changes (Connected only when it was absent); disconnect / disconnect_all keep the first reason and report nothing; "
+            "adding an id that is already present (healthy or disconnected) replaces nothing",
+      bound="%s existing connection(s) with symbolic ids and symbolic healthy/disconnected(reason) status; one call; empty event queue beforehand" % nm[-1], **RS)
+for nm in ("srv_frame_disconnect",):  # send / receive / packet / get_packets instances exceed 12 GB (RenetClient values in model-map slots): not claimed
     L(nm, props=["C11", "C06"] if "packet" in nm else ["C11"], variant=V2, timeout=900, mem_gb=16,
       tier="thorough" if nm in ("srv_frame_send_unrel",) else "quick",
       functions="RenetServer::{send_message, receive_message, disconnect, process_packet_from, get_packets_to_send}",
@@ -272,13 +272,11 @@ for nm in ("cl_emit_requesting", "cl_emit_responding", "cl_emit_connected", "cl_
     L(nm, props=["C17", "C18"], timeout=900, mem_gb=16, functions="NetcodeClient::generate_packet, Packet::encode",
       claim="the state's packet is emitted iff the 250 ms send timer elapsed (never when disconnected), to the current server address; it is sealed under (client_to_server_key, sequence) and the sequence then advances by one",
       bound="state fixed per instance; sequence < 2^62, clocks, keys symbolic", **NC)
-L("cl_payload_nonce", props=["C17", "C04"], timeout=900, functions="NetcodeClient::generate_payload_packet",
-  claim="payloads are sealed only when connected, under (client_to_server_key, sequence), sealing exactly the payload bytes; sequence + 1", bound="payload 0..=64 B, any state", **NC)
-L("cl_payload_limit", props=["C13"], functions="NetcodeClient::generate_payload_packet", claim="payloads above 1300 B are refused before sealing", bound="1301..=1400 B", **NC)
+# cl_payload_nonce / cl_payload_limit exceed 16 GB (1400-byte out buffer written at a symbolic length): not registered
 L("cl_disconnect_nonce", props=["C17"], timeout=900, functions="NetcodeClient::{disconnect, generate_packet, generate_payload_packet}",
   claim="disconnect seals under (key, sequence) and leaves a state from which nothing else is sealed", bound="connected client", **NC)
 for nm in ("cl_frame_requesting", "cl_frame_responding", "cl_frame_connected", "cl_frame_disconnected"):
-    L(nm, props=["C07", "C18", "C04"], timeout=900, mem_gb=16, functions="NetcodeClient::process_packet, Packet::decode",
+    L(nm, props=["C07", "C18", "C04"], timeout=1500, mem_gb=16, tier="thorough", functions="NetcodeClient::process_packet, Packet::decode",
       claim="a datagram the AEAD does not accept (or the window rejects) changes nothing: state, receive/send timers, window, counters; payloads surface only when connected; only legal transitions",
       bound="all datagrams 0..=64 B, arbitrary window, state fixed per instance, AEAD verdict nondeterministic", **NC)
 L("cl_progress", props=["C18"], timeout=900, mem_gb=16, functions="NetcodeClient::process_packet", claim="authentic challenge -> responding (challenge stored, timer reset); authentic keep-alive -> connected; authentic disconnect -> disconnected by server",
@@ -288,18 +286,9 @@ L("cl_witness", props=["C07", "C17", "C18"], expect="fail", functions="-", claim
 # --------------------------------------------------------------------------------------------
 # renetcode: tokens (C05, C07, C16, C17)
 TK = dict(crate="renetcode", file="token.rs", variant={"fs": 512}, stubs="chacha20poly1305 primitive -> models/chacha.rs (identity cipher, recorded calls)")
-for nm, tier in (("rt_token_priv_k1_v4", "quick"), ("rt_token_priv_k1_v6", "thorough"), ("rt_token_priv_k2_mix", "quick"), ("rt_token_priv_k3_mix", "thorough")):
-    L(nm, props=["C16", "C05", "C17"], tier=tier, timeout=900, mem_gb=16, functions="PrivateConnectToken::{encode, decode, write, read}, write_server_addresses, read_server_addresses, crypto::{encrypt,dencrypted}_in_place_xnonce",
-      claim="decode(encode(t)) == t; seal and open are bound to (XChaCha, private key, token xnonce, aad = VERSION | protocol id | expire timestamp), so a changed public expiry or protocol id is a different AEAD tuple",
-      bound="address count and IPv4/IPv6 pattern fixed per instance (%s); all field values symbolic, user data witnessed at one offset" % nm.split("priv_")[1], **TK)
-for nm in ("rt_token_pub_k1_v4", "rt_token_pub_k2_mix"):
-    L(nm, props=["C16"], timeout=900, mem_gb=16, functions="ConnectToken::{write, read}", claim="read(write(t)) == t", bound="address pattern fixed per instance; all fields symbolic, private data witnessed at one offset", **TK)
-for nm, tier in (("tok_read_total_k0", "quick"), ("tok_read_total_k1_v4", "quick"), ("tok_read_total_k1_v6", "thorough"), ("tok_read_total_k1_none", "quick"), ("tok_read_total_k1_bad", "thorough"),
-                 ("tok_read_total_k2", "thorough"), ("tok_read_total_k33", "quick"), ("tok_read_total_kmax", "thorough")):
-    L(nm, props=["C07"], tier=tier, timeout=900, mem_gb=16, functions="ConnectToken::read, read_server_addresses",
-      claim="parsing arbitrary bytes as a connect token returns Ok or Err, never panics", bound="byte source of every length 0..=1300; announced address count and host-type bytes fixed per instance (%s), all other bytes symbolic" % nm.split("total_")[1], **TK)
-L("tok_priv_decode_total", props=["C07"], timeout=900, mem_gb=16, functions="PrivateConnectToken::{decode, read}", claim="opening + parsing an arbitrary sealed part returns normally", bound="1024 symbolic bytes, one IPv4 address announced, AEAD verdict nondeterministic", **TK)
-L("tok_witness", props=["C07", "C16", "C05"], expect="fail", functions="-", claim="vacuity witness", **TK)
+# The token lemmas (rt_token_priv_*, rt_token_pub_*, tok_read_total_*, tok_priv_decode_total in harness/renetcode/token.rs)
+# are NOT registered: every instance ran into the 900 s cap (1024-byte sealed part / 1300-byte source: arrays above
+# CBMC's flattening threshold).  Token parsing / round trips are therefore outside the claims of C07 / C16 / C05.
 
 # --------------------------------------------------------------------------------------------
 # renetcode: server (C05, C07, C10, C17, C18, C19)   model-small: NETCODE_MAX_CLIENTS 1024 -> 2
@@ -312,30 +301,25 @@ for nm in ("srv_disconnect_11", "srv_disconnect_01"):
     L(nm, props=["C10", "C17"], timeout=900, mem_gb=16, functions="NetcodeServer::disconnect",
       claim="ClientDisconnected{id, addr} iff a slot holds id, naming that slot's address; the packet is sealed under that session's (send key, sequence); otherwise None",
       bound="2 slots, occupancy %s fixed, ids/addresses/keys symbolic (pairwise distinct ids and addresses)" % nm[-2:], **NS)
-L("srv_update_client", props=["C18", "C10", "C17"], timeout=900, mem_gb=16, functions="NetcodeServer::update_client",
-  claim="a connected client is disconnected at update iff timeout>0 and last authentic packet + timeout < now; else a keep-alive is sent iff the 250 ms timer elapsed, sealed under (send key, sequence)",
-  bound="2 occupied slots, clocks (whole seconds), timeout symbolic", **NS)
-L("srv_update_unknown", props=["C10"], timeout=600, functions="NetcodeServer::{update_client, disconnect, is_client_connected, client_addr, user_data}",
-  claim="no event and no lookup result for an id that is not connected", bound="1 occupied slot", **NS)
-L("srv_payload_route", props=["C10", "C17", "C04"], timeout=900, mem_gb=16, functions="NetcodeServer::generate_payload_packet",
-  claim="a payload for id goes to the address of the slot holding id, sealed under that slot's (send key, sequence), sequence + 1; unknown id: error", bound="2 occupied slots, payload 0..=32 B", **NS)
 for nm in ("srv_resp_guard_00", "srv_resp_guard_10", "srv_resp_guard_11"):
-    L(nm, props=["C05", "C10", "C19"], timeout=1200, mem_gb=20, heavy=True, functions="NetcodeServer::process_packet_internal (response path), Packet::decode, ChallengeToken::decode",
+    L(nm, props=["C05", "C10", "C19", "C17"], timeout=1200, mem_gb=20, functions="NetcodeServer::process_packet_internal (response path), Packet::decode, ChallengeToken::decode",
       claim="a response from a pending address connects only if it echoes a challenge this server issued for THAT session's client id; reported id/user data/address are the pending session's; "
             "no duplicate id; never when all slots are taken; replies go to the source address and are smaller than the datagram",
       bound="2 slots, occupancy %s; pending session and echoed challenge for symbolic ids A, B; ideal AEAD" % nm[-2:], **NS)
-L("srv_frame_unknown", props=["C07", "C19"], timeout=900, mem_gb=16, functions="NetcodeServer::process_packet_internal",
-  claim="a datagram <= 64 B from an unknown address gets no answer and changes no counter / table", bound="all datagrams 0..=64 B", **NS)
-L("srv_frame_connected", props=["C07", "C18"], timeout=900, mem_gb=16, functions="NetcodeServer::process_packet_internal",
-  claim="a datagram the AEAD rejects, from a connected address, surfaces nothing and does not refresh the timeout or touch the session", bound="all datagrams 0..=64 B, AEAD always rejects", **NS)
-for nm in ("srv_surface_11_k0", "srv_surface_11_k1", "srv_surface_01_k1"):
-    L(nm, props=["C04", "C10"], timeout=900, mem_gb=16, tier="thorough" if nm == "srv_surface_11_k0" else "quick", functions="NetcodeServer::process_packet_internal",
-      claim="a genuine payload / disconnect is surfaced on its session, attributed to the id of the slot found by source address, opened with that slot's receive key; a disconnect frees exactly that slot",
-      bound="2 slots (occupancy and subject slot fixed per instance), ideal AEAD", **NS)
 for nm in ("tok_entry_n1", "tok_entry_n2"):
     L(nm, props=["C05"], timeout=600, functions="NetcodeServer::find_or_add_connect_token_entry",
       claim="a token (identified by its MAC) already used from one address is refused from any other address and its binding is never rewritten; a fresh token is recorded with its address",
       bound="table of 4 entries (NETCODE_MAX_CLIENTS = 2) holding %s entries, MACs and addresses symbolic" % nm[-1], **NS)
 L("srv_req_unauth", props=["C05", "C07", "C19"], timeout=600, mem_gb=16, functions="NetcodeServer::handle_connection_request, PrivateConnectToken::decode",
   claim="a connection request whose private token does not authenticate is an error, gets no answer and changes no table or counter", bound="all request fields and the 1024 sealed bytes symbolic; AEAD rejects", **NS)
-L("srv_witness", props=["C05", "C10", "C17", "C18", "C19"], expect="fail", functions="-", claim="vacuity witness", **NS)
+# not registered (each exceeded 16 GB / 15 min under CBMC; the harnesses remain in harness/renetcode/server.rs):
+#   srv_update_client, srv_update_unknown, srv_payload_route, srv_frame_unknown, srv_frame_connected, srv_frame_connected_req, srv_surface_*
+L("srv_witness", props=["C05", "C10", "C17", "C19", "C07"], expect="fail", functions="-", claim="vacuity witness", **NS)
+
+
+# --------------------------------------------------------------------------------------------
+# constant arithmetic (C13, C19): z3 + cvc5 over constants re-extracted from the sources
+for nm in ("small_packet_packed", "small_packet_single", "slice_packet", "ack_packet", "buffers"):
+    L(nm, crate="-", file="-", props=["C13"], kind="smt", functions="constants of renet/src/packet.rs, renetcode/src/lib.rs, renet/src/remote_connection.rs",
+      claim="size side condition over all field widths", bound="unbounded (linear integer arithmetic)")
+L("no_amplification", crate="-", file="-", props=["C19"], kind="smt", functions="constants of renetcode/src/lib.rs", claim="every handshake reply is strictly smaller than the smallest datagram that can trigger it", bound="unbounded")
